@@ -34,14 +34,20 @@ def full(name, cmd, q=FULL_SHIPPED, t=FULL_ALL, **kw):
     return d
 
 
+# builds of the two hash variants that have NO shipped proof: the component monitors are run inside the
+# full binary as well, where the hash features reach the crates only through the repository's own
+# feature wiring (cli -> stark -> air/commitment/fri/pow); the component harness wires them itself
+WIRED = [("keccak_248_lsb", "stone5"), ("blake2s_160_lsb", "stone5")]
+WIRED_ALL = FULL_SHIPPED + WIRED
+
 PROPS = {}
 
 PROPS["C04"] = {
     "level_text": 'Exhaustive for heights <= 3 (4 thorough) x all friendly counts x all query subsets with every single-position corruption, randomized to height 64 (sparse trees) against an independent Merkle prover; 4 hash builds in thorough, plus a Miri pass.',
     "level": "exploration",
     "technique": "runtime differential monitor: real vector_commitment_decommit vs an independent Merkle prover model, exhaustive small shapes + randomized large/sparse trees + single-position fault injection",
-    "rule": "cases = (hash build, height, friendly-layer count, leaf contents, sorted distinct query set[, one corruption]); heights 0..=3 (quick) / 0..=4 (thorough) x n_friendly 0..=h+1 x every non-empty query subset are enumerated, plus random full trees (h<=12) and sparse default-leaf trees (h<=64) with friendly counts up to 2^32, 2^40, 2^63, 2^64-1; a case is non-trivial when the tree has at least one hash layer; distinct = distinct (shape, queries, root, corruption label)",
-    "legs": [comp("merkle", "merkle"), tool_leg("miri", "miri", "comp", "mini", [("keccak_160_lsb",), ("blake2s_248_lsb",)], shards=8)],
+    "rule": "cases = (hash build, height, friendly-layer count, leaf contents, sorted distinct query set[, one corruption]); heights 0..=3 (quick) / 0..=4 (thorough) x n_friendly 0..=h+1 x every non-empty query subset are enumerated, plus random full trees (h<=12) and sparse default-leaf trees (h<=64) with friendly counts up to 2^32, 2^40, 2^63, 2^64-1; a case is non-trivial when the tree has at least one hash layer; distinct = distinct (shape, queries, root, corruption label); leg merkle-wired repeats the workload inside the full binary for the two hash variants without shipped proofs, where the hash feature arrives through the repository's own feature wiring",
+    "legs": [comp("merkle", "merkle"), full("merkle-wired", "merkle", q=WIRED, t=WIRED, repo_arg=False, args=["--n", "120"]), tool_leg("miri", "miri", "comp", "mini", [("keccak_160_lsb",), ("blake2s_248_lsb",)], shards=8)],
     "required_counters": ["honest_accepted", "corrupt_rejected", "layers.mixed"],
     "assumptions": TRUSTED[:1] + ["index corruptions are only counted when the corrupted claim is false (sparse trees repeat default leaves)"],
 }
@@ -50,8 +56,8 @@ PROPS["C05"] = {
     "level_text": 'Randomized differential exploration against an independent table-commitment model over column counts 1..16, 32, 128, heights to 48, all row-hash regimes, with per-cell fault injection and an oracle self-check (non-Montgomery commitment must be rejected).',
     "level": "exploration",
     "technique": "runtime differential monitor: real table_decommit vs an independent table-commitment model (Montgomery rows, row-hash rule), randomized shapes + single-cell fault injection",
-    "rule": "cases = (hash build, columns in {1..16,32,128}, height, friendly-layer count on both sides of height+1 and at 2^32..2^64-1, rows, query set[, one corruption]); corruptions: every cell +1/random/+2^200 (<=64 cells sampled per instance), cells swapped across rows / columns, cell removed/appended, all cells / all rows but one removed (the length classes are never sampled away), declared column count changed, commitment built without the Montgomery factor; distinct = distinct (shape, queries, root, corrupted values)",
-    "legs": [comp("table", "table"), tool_leg("miri", "miri", "comp", "mini", [("keccak_248_lsb",), ("blake2s_160_lsb",)], shards=8)],
+    "rule": "cases = (hash build, columns in {1..16,32,128}, height, friendly-layer count on both sides of height+1 and at 2^32..2^64-1, rows, query set[, one corruption]); corruptions: every cell +1/random/+2^200 (<=64 cells sampled per instance), cells swapped across rows / columns, cell removed/appended, all cells / all rows but one removed (the length classes are never sampled away), declared column count changed, commitment built without the Montgomery factor; distinct = distinct (shape, queries, root, corrupted values); leg table-wired: the same inside the full binary for the hash variants without shipped proofs (repository feature wiring)",
+    "legs": [comp("table", "table"), full("table-wired", "table", q=WIRED, t=WIRED, args=["--n", "150"]), tool_leg("miri", "miri", "comp", "mini", [("keccak_248_lsb",), ("blake2s_160_lsb",)], shards=8)],
     "required_counters": ["honest_accepted", "corrupt_rejected", "rowhash.single_column_unhashed", "rowhash.row_poseidon", "rowhash.row_masked_hash"],
     "assumptions": TRUSTED[:1],
 }
@@ -60,8 +66,8 @@ PROPS["C06"] = {
     "level_text": 'Differential exploration: an independent FRI prover (written from the protocol description) must be accepted on thousands of valid configurations, polynomials and query sets; folding identities checked directly on fri_formula / compute_next_layer.',
     "level": "exploration",
     "technique": "runtime differential monitor: an independent coefficient-space FRI prover (NTT, Merkle/table model, sponge model) must be accepted by the real fri_commit/fri_verify; fri_formula/compute_next_layer compared with the polynomial folding identity",
-    "rule": "cases = folding identities (coset size 2..16, random polynomial of degree<64, every domain 2^k..2^8, random/0/1 challenge) and honest FRI instances (2..=15 layers, steps 1..=4, last-layer log bound 0..=8, log blow-up 0..=4, friendly count around each layer height, zero/constant/max-degree/random polynomial, polynomials divisible by x^(2^sum of steps) and the single maximal-degree monomial, friendly counts up to 2^64-1, 1..=48 queries with same-coset and whole-coset patterns); every instance's config is first required to pass the real Config::validate; non-trivial = at least 2 layers",
-    "legs": [comp("fri", "fri")],
+    "rule": "cases = folding identities (coset size 2..16, random polynomial of degree<64, every domain 2^k..2^8, random/0/1 challenge) and honest FRI instances (2..=15 layers, steps 1..=4, last-layer log bound 0..=8, log blow-up 0..=4, friendly count around each layer height, zero/constant/max-degree/random polynomial, polynomials divisible by x^(2^sum of steps) and the single maximal-degree monomial, friendly counts up to 2^64-1, 1..=48 queries with same-coset and whole-coset patterns); every instance's config is first required to pass the real Config::validate; leg fri-wired: the same inside the full binary for the hash variants without shipped proofs; non-trivial = at least 2 layers",
+    "legs": [comp("fri", "fri"), full("fri-wired", "fri", q=WIRED, t=WIRED, args=["--n", "40"])],
     "required_counters": ["honest_accepted", "formula.coset_size_16", "layers.15"],
     "assumptions": TRUSTED[:1],
 }
@@ -92,8 +98,10 @@ PROPS["C09"] = {
     "level_text": 'Differential exploration with oracle-ground threshold nonces (exactly n-1, n, n+1 zero bits), random triples to n = 128, exhaustive config range, commit atomicity, recorded triples of the shipped proofs.',
     "level": "exploration",
     "technique": "runtime differential monitor: real verify_pow / pow Config::validate / UnsentCommitment::commit vs a leading-zero-bit oracle, with nonces ground by the oracle to exactly n-1, n, n+1 zero bits",
-    "rule": "cases = (PoW hash, digest, n_bits, nonce): threshold triples for n in 0..=19 (quick) / 0..=24 (thorough), random triples with n in 0..=128, byte-swapped nonce/digest probes, all 256 config values (exhaustive), commit absorb-order/atomicity histories, cached triples of difficulty 33 (one-off multi-minute grind, committed in profiles/pow_ground.json, re-decided by the oracle at run time); recorded leg: the shipped proofs' own triples at n_bits and n_bits+-8, and every shipped proof re-run with 6 oracle-refused nonces (nonce+-1, 0, 2^64-1, top bit flipped, byte-swapped): verification must stop at the proof-of-work step (error, no transcript activity after the last FRI layer); non-trivial = decided within 2 bits of the threshold or an acceptance at n>=8",
-    "legs": [comp("pow", "pow", args=["--powcache", "/verif/profiles/pow_ground.json"]), full("recorded", "recorded", t=FULL_SHIPPED)],
+    "rule": "cases = (PoW hash, digest, n_bits, nonce): threshold triples for n in 0..=19 (quick) / 0..=24 (thorough), random triples with n in 0..=128, byte-swapped nonce/digest probes, all 256 config values (exhaustive), commit absorb-order/atomicity histories, cached triples of difficulty 33 (one-off multi-minute grind, committed in profiles/pow_ground.json, re-decided by the oracle at run time); leg pow-wired: the same inside the full binary of the two hash variants without shipped proofs, so that the PoW hash family the REPOSITORY's feature wiring selects is the one compared with the oracle; recorded leg: the shipped proofs' own triples at n_bits and n_bits+-8, and every shipped proof re-run with 6 oracle-refused nonces (nonce+-1, 0, 2^64-1, top bit flipped, byte-swapped): verification must stop at the proof-of-work step (error, no transcript activity after the last FRI layer); non-trivial = decided within 2 bits of the threshold or an acceptance at n>=8",
+    "legs": [comp("pow", "pow", args=["--powcache", "/verif/profiles/pow_ground.json"]),
+             full("pow-wired", "pow", q=WIRED, t=WIRED, args=["--powcache", "/verif/profiles/pow_ground.json", "--n", "4000"]),
+             full("recorded", "recorded", t=FULL_SHIPPED)],
     "required_counters": ["threshold.oracle_accept", "threshold.oracle_reject", "config_values", "commit.good_nonce", "pow_recorded_triples", "pow.bad_nonce_stopped_at_pow", "cache.accepting_triples_at_33_bits_or_more"],
     "assumptions": TRUSTED[:1] + ["acceptance at difficulties above 24 bits is only observed on the recorded Stone proofs (24..32 bits) and on the cached ground triples (33 / 36 bits); finding a preimage IS the proof of work, so difficulties above ~36 bits are out of reach"],
 }
@@ -170,11 +178,12 @@ PROPS["C11"] = {
 PROPS["C01"] = {
     "level_text": "Attack-family exploration: complete forged proofs for AIR-violating traces, one cheating mechanism each (11 strategies incl. the three total breaks found on the original tree), are run through the real verifier; 'held' means every implemented attack was rejected, and the trace monitor shows at which protocol stage. Universal soundness is out of reach of runtime monitoring; this is the strongest executable evidence for the named mechanisms.",
     "level": "exploration",
-    "technique": "runtime adversarial monitor: a cheating-prover toolkit builds complete forged proofs (constant, AIR-violating trace; honest Merkle openings; real FRI proving of the resulting DEEP function; ground PoW) that cheat in exactly one mechanism each; acceptance by the real StarkProof::verify is the refuting observation; the transcript trace monitor records how far each run got",
-    "rule": "forgeries = (template statement/config of an honest proof of the build, strategy, repetition); strategies S1 bad trace/honest rest, S2 OODS length decoupling (also with a falsified output), S3 FRI domain larger than the evaluation domain, S11 degree bound raised to the domain size behind a surplus trailing FRI step of p - blow-up, S5 blow-up exponent p-2, S6 zero queries, S8 wrong openings with honest FRI (control), S9 last-layer length, S10 PoW not ground; a forgery is non-trivial when the harness confirmed that the committed constant trace violates the AIR (constraint combination at the OODS point != committed composition); quick: 2 smallest templates per build, thorough: all templates x 3 repetitions",
+    "technique": "runtime adversarial monitor: a cheating-prover toolkit builds complete forged proofs (constant, AIR-violating trace; honest Merkle openings; real FRI proving of the resulting DEEP function; ground PoW) that cheat in exactly one mechanism each; acceptance by the real StarkProof::verify is the refuting observation; the transcript trace monitor records how far each run got; a sensitivity monitor checks that the AIR's boundary constraints depend on every statement field the Cairo AIR binds",
+    "rule": "forgeries = (template statement/config of an honest proof of the build, strategy, repetition); strategies S1 bad trace/honest rest, S2 OODS length decoupling (also with a falsified output), S3 FRI domain larger than the evaluation domain, S11 degree bound raised to the domain size behind a surplus trailing FRI step of p - blow-up, S5 blow-up exponent p-2, S6 zero queries, S8 wrong openings with honest FRI (control), S9 last-layer length, S10 PoW not ground; a forgery is non-trivial when the harness confirmed that the committed constant trace violates the AIR (constraint combination at the OODS point != committed composition); quick: 2 smallest templates per build, thorough: all templates x 3 repetitions; statement binding (leg stmtbind): per layout, every segment bound, the range-check bounds, the padding cell and sampled main-page cells bumped by one under 2 / 6 random environments - the real eval_composition_polynomial must change for initial/final pc and ap, the first address of every builtin of the layout (dynamic: all switched on), the range-check bounds, the padding cell and every sampled public-memory cell",
     "legs": [full("forge", "forge", t=FULL_SHIPPED, serial=True, timeout={"quick": 1800, "thorough": 14000}),
-             full("dynprofile", "dynprofile", q=[("blake2s_248_lsb", "stone6")], t=[("blake2s_248_lsb", "stone6")], args=["--profile", "/verif/profiles/dynamic_accept.json"])],
-    "required_counters": ["attempts.S1 bad-trace-honest-rest", "attempts.S2 oods-length-decoupling", "attempts.S3 fri-domain-larger-than-eval", "attempts.S5 blowup-mod-p", "rejected_by_the_targeted_check", "parameters_profiled"],
+             full("dynprofile", "dynprofile", q=[("blake2s_248_lsb", "stone6")], t=[("blake2s_248_lsb", "stone6")], args=["--profile", "/verif/profiles/dynamic_accept.json"]),
+             full("stmtbind", "stmtbind", q=FULL_SHIPPED, t=FULL_SHIPPED)],
+    "required_counters": ["attempts.S1 bad-trace-honest-rest", "attempts.S2 oods-length-decoupling", "attempts.S3 fri-domain-larger-than-eval", "attempts.S5 blowup-mod-p", "rejected_by_the_targeted_check", "parameters_profiled", "required_fields_probed"],
     "assumptions": TRUSTED + ["soundness against all adversaries is out of reach of any runtime monitor: only the implemented attack families are decided", "the forger learns the mask structure by black-box probing of eval_oods_polynomial"],
 }
 
